@@ -65,6 +65,36 @@ CHECKS = {
    text="The property relations are checked on the complete bounded state graphs, and the TLC-generated behaviours plus the bundled XML inputs with distances are validated event by event against the real code: every event carries the full hwloc_distances_get state, compared as a bag with what the relation allows. Bounds: <= 4 objects per matrix in the model (7 in simulation), <= 3 structures, values below 2^24, edges striped in the quick tier.",
    design_ref="DESIGN.md section 6, C13",
    note="Trusted: TLC with the Json module, the recorder (no oracle logic), gp_index stability across dup and v3 XML. Returned order is not checked (bag comparison). Grouping quality is not specified; only hwloc_topology_check after GROUP commits. Must/May sets where the documentation leaves things open."),
+ "C06": dict(
+   technique="TLA+ model of structure-aware XML mutations (spec/MC_XmlMut.tla: every single drop/set/duplicate-attribute, duplicate/drop/swap-element, truncate and version mutation of each base document, simulated 2-3 mutation recipes) plus seeded byte-level damage; each document is loaded by the ASan+UBSan+LSan recorder (harness/hwv_xmlload.c, watchdog) under both XML import backends and the recorded event is validated by TLC against the lifecycle relation and the WellFormed predicate (spec/TraceXmlLoad.tla)",
+   category="model_checking",
+   text="The state-machine clauses are decided by the specification on every document: set/load return 0 or -1, a load that succeeds yields a well-formed topology (C01) on which the whole read-only battery returns, a load that fails leaves a topology that is destroyed or configured and loaded again, hwloc's own exports load. Memory safety, hangs and leaks are observed by the instrumented recorder and turned into events that the specification rejects; that part is exploration, not proof.",
+   design_ref="DESIGN.md section 6, C06",
+   note="Trusted: TLC, projection code, ASan/UBSan/LSan, the Python tokenizer that applies recipes to bytes (the bytes are stored in the replay). No MSan build (libxml2 is not instrumented)."),
+ "C09": dict(
+   technique="TLC enumerates all helper queries over the real projection of each of 17-19 bounded topology families (spec/MC_Helpers.tla, which also checks the brute-force definitions of spec/Helpers.tla on the model); every query is executed on the rebuilt library and validated by TLC against the same TLA+ definitions (spec/TraceHelpers.tla)",
+   category="model_checking",
+   text="Exhaustive for topologies of up to 8 PUs over all argument subsets, objects, pairs, depths, types, n and until; sampled for 12-16 PUs. Equality is demanded where the documentation determines the answer, a relation where it leaves a choice (largest_objs with a small array, ties in closest_objs, rounding in hwloc_distrib).",
+   design_ref="DESIGN.md section 6, C09",
+   note="Trusted: project.h, WellFormed as the hypothesis, TLC. Helpers documented as needing cpusets are not called on I/O or Misc objects; an infinite tail in an argument set is cut at index 1023; errno values are not judged. Distrib disjointness is demanded when n <= #PUs and `until` does not cut the recursion (see DESIGN.md)."),
+ "C10": dict(
+   technique="explicit TLA+ relation per binding entry point (spec/Bind.tla Rel), TLC-exhaustive bounded model of bind.c plus dummy and Linux hooks over an abstract kernel checked against it (spec/MC_Bind.tla), transition tours replayed on the rebuilt library with sched_setaffinity, pthread_setaffinity_np and syscall() interposed, and the recorded ndjson validated by TLC (spec/TraceBind.tla)",
+   category="model_checking",
+   text="The bounded model is explored exhaustively (10 topology kinds x all flag words x all sets over 6-7 atoms x policies; all reachable affinity and policy states); every explored transition (thorough) or a seeded fraction (quick) is executed on the real library and each event, including what reached the OS, is decided by the relation; live round trips run on this machine.",
+   design_ref="DESIGN.md section 6, C10",
+   note="Trusted: Linux kernel semantics of sched_setaffinity/set_mempolicy/mbind (read back with raw syscalls), the interposition layer, the recorder, TLC. Assumes an x86_64 Linux sandbox with >= 4 allowed CPUs; kernel refusals accepted where the property leaves them open; hwloc_topology_set_pid and RESTRICT_TO_*BINDING not explored."),
+ "C14": dict(
+   technique="TLA+ model of the memory-attribute store (spec/MemAttrs.tla: abstract reference table plus a transcription of memattrs.c with lazy refresh and XML replay), explored by TLC with exhaustive BFS and simulation (spec/MC_MemAttrs.tla); every emitted history is replayed on the rebuilt library with a full query battery and validated by TLC (spec/TraceMemAttrs.tla); bundled inputs with memattrs are adopted and round-tripped",
+   category="model_checking",
+   text="Every logged result of every query is judged by the relations of the property on each striped state and edge of the bounded models (3 NUMA nodes incl. CPU-less and larger-locality ones x 4 PUs, all flag words, values with ties, <= 4 steps) and on longer simulated histories over five families; the model invariants also show that the constructive design satisfies the relations.",
+   design_ref="DESIGN.md section 6, C14",
+   note="Trusted: TLC, Json module, recorder projection (public API only), the restrict projection from the log (C08). errno demanded only where memattrs.h documents it; overlapping cpuset initiators get only the weak contract; v2 XML judged for success + self-consistency; ENOMEM and memory-tier guessing not explored."),
+ "C15": dict(
+   technique="explicit TLA+ specification of the cpukinds subsystem (spec/CpuKinds.tla: oracle relations + transcription of cpukinds.c); TLC exhaustively model-checks the property on four bounded models (spec/MC_CpuKinds.tla); TLC-generated behaviours (per state-graph edge plus simulated walks incl. restrict, dup, XML) are replayed on the ASan-built library; TLC validates every recorded event against the same relations (spec/TraceCpuKinds.tla)",
+   category="model_checking",
+   text="The partition, info-accumulation, ranking and lookup relations are TLC invariants over four exhaustively explored bounded models; every observable state after every call of every replayed behaviour - including all get_by_cpuset answers for every subset - is judged by the specification alone.",
+   design_ref="DESIGN.md section 6, C15",
+   note="Trusted: TLC, Json module, recorder projection. Bounds: <= 4 PUs and <= 4 registrations exhaustively, 8 atoms at depth 8 sampled. Last-wins reading of forced efficiencies; restrict by cpuset with flags 0 only; ENOMEM not explored; HWLOC_CPUKINDS_RANKING unset."),
 }
 NA_REASON = {}
 
